@@ -46,6 +46,33 @@ Definition ev_in_rows01 (cols : Z) (e : dev_ev) : Prop :=
 Definition text_ev (e : dev_ev) : Prop :=
   match e with EvSC _ _ | EvW _ _ _ | EvCLR => True | _ => False end.
 
+(* rows a call may write cells of (message: row 0 for top, row 1 for bottom) *)
+Definition touched (g : geom) (op : lop) : list Z :=
+  match op with
+  | OWrite _ row _ _ _ => [row]
+  | OLine row _ _ _ => [row]
+  | OMessage top bottom _ _ _ =>
+      (if is_none top then [] else [0]) ++ (if is_none bottom then [] else [1])
+  | OClear => zseq (g_rows g)
+  | OProgress row _ _ _ _ _ => [row]
+  | ODisplay _ | OBacklight _ | OBrightness _ | OGlyph _ _ => []
+  end.
+(* a cell write lands in one of [rows] and inside the width *)
+Definition ev_in_rows (rows : list Z) (cols : Z) (e : dev_ev) : Prop :=
+  match e with EvW r c _ => In r rows /\ 0 <= c < cols | _ => True end.
+(* the geometric part of the guard only: row and column in range, argument codes valid;
+   any text (also non-ASCII), any value / max_value / width *)
+Definition geo_guard (g : geom) (op : lop) : bool :=
+  match op with
+  | OWrite col row _ _ align => row_in g row && col_in g col && align_ok align
+  | OLine row _ align _ => row_in g row && align_ok align
+  | OMessage _ bottom ta ba _ => align_ok ta && align_ok ba && (is_none bottom || (2 <=? g_rows g))
+  | OProgress row _ _ _ style _ => row_in g row && style_ok style
+  | OClear | ODisplay _ | OBacklight _ | OBrightness _ | OGlyph _ _ => true
+  end.
+(* row r of the host buffer *)
+Definition hrow (h : hlcd) (r : Z) : list Z := znth r (h_buf h) [].
+
 (* newest glyph upload into a CGRAM slot *)
 Fixpoint last_cg (slot : Z) (l : list dev_ev) : option (list Z) :=
   match l with
